@@ -122,6 +122,77 @@ Proof.
   match type of Ec with context [?x <? ?y] => destruct (x <? y) eqn:Q3 end; [discriminate|]. lia.
 Qed.
 
+(* ---- the three callers are new_cert on particular arguments ------------------------------------------------------- *)
+Theorem derive_cert_spec key_name iss pub sg ts start e m :
+  derive_cert sign key_name iss pub sg ts start e = Ok m ->
+  exists ic a,
+    issuer_comp iss = Ok ic /\ new_cert sign a = Ok m /\
+    c_key_name a = key_name /\ c_issuer a = ic /\ c_now a = ts /\ c_pub a = pub /\ c_signer a = sg /\ c_start a = start /\
+    instant_of (c_end a) = (instant_of start + e)%Z /\ valid_bdt (a_fields (c_end a)) = true.
+Proof.
+  unfold derive_cert. intros H.
+  destruct (add_seconds (a_fields start) e) as [endf|] eqn:Ea; [|discriminate]. cbn [bind] in H.
+  destruct (issuer_comp iss) as [ic|] eqn:Ei; [|discriminate]. cbn [bind] in H.
+  destruct (add_seconds_sound _ _ _ Ea) as [Hs Hv].
+  eexists. eexists. split; [reflexivity|]. split; [exact H|].
+  cbn [c_key_name c_issuer c_now c_pub c_signer c_start c_end a_fields a_offset].
+  repeat split; try reflexivity; [|exact Hv].
+  unfold instant_of. cbn [a_fields a_offset]. rewrite Hs. lia.
+Qed.
+
+Lemma replace_year_valid t y e : valid_bdt t = true -> replace_year t y = Ok e ->
+  valid_bdt e = true /\ t_year e = y /\ t_mon e = t_mon t /\ t_day e = t_day t /\ t_hour e = t_hour t /\
+  t_min e = t_min t /\ t_sec e = t_sec t.
+Proof.
+  unfold replace_year, valid_bdt. intros Hv.
+  destruct ((y <? 1) || (9999 <? y)) eqn:Ey; [discriminate|].
+  destruct ((t_mon t =? 2) && (t_day t =? 29) && negb (is_leap y)) eqn:Ef; [discriminate|].
+  intros H. apply Ok_inj in H. subst e. cbn [t_year t_mon t_day t_hour t_min t_sec].
+  split; [|repeat split; reflexivity].
+  repeat (apply andb_true_iff in Hv; destruct Hv as [Hv ?]).
+  repeat (apply andb_true_iff; split); try lia.
+  unfold days_in_month in *.
+  destruct (t_mon t =? 2) eqn:E2; [|assumption].
+  destruct (is_leap y); [destruct (is_leap (t_year t)); lia|].
+  destruct (t_day t =? 29) eqn:E29; [discriminate|]. destruct (is_leap (t_year t)); lia.
+Qed.
+
+Theorem self_sign_spec key_name pub sg ts now m :
+  valid_bdt now = true ->
+  self_sign sign key_name pub sg ts now = Ok m ->
+  exists e a,
+    new_cert sign a = Ok m /\
+    c_key_name a = key_name /\ c_issuer a = SELF_COMPONENT /\ c_now a = ts /\ c_pub a = pub /\ c_signer a = sg /\
+    instant_of (c_start a) = 0%Z /\ valid_bdt (a_fields (c_start a)) = true /\
+    c_end a = utc e /\ valid_bdt e = true /\
+    t_year e = t_year now + 20 /\ t_mon e = t_mon now /\ t_day e = t_day now /\ t_hour e = t_hour now /\
+    t_min e = t_min now /\ t_sec e = t_sec now.
+Proof.
+  unfold self_sign. intros Hv H.
+  destruct (replace_year now (t_year now + self_sign_years)) as [e|] eqn:Er; [|discriminate]. cbn [bind] in H.
+  destruct (replace_year_valid _ _ _ Hv Er) as (V & Y & R).
+  exists e. eexists. split; [exact H|].
+  cbn [c_key_name c_issuer c_now c_pub c_signer c_start c_end].
+  repeat split; try reflexivity; try assumption; tauto.
+Qed.
+
+Theorem sign_req_spec key_name pub sg ts now1 now2 m :
+  sign_req sign key_name pub sg ts now1 now2 = Ok m ->
+  exists a,
+    new_cert sign a = Ok m /\
+    c_key_name a = key_name /\ c_issuer a = SIGN_REQ_COMPONENT /\ c_now a = ts /\ c_pub a = pub /\ c_signer a = sg /\
+    c_start a = utc now2 /\
+    instant_of (c_end a) = (bdt_to_secs now1 + 864000)%Z /\ valid_bdt (a_fields (c_end a)) = true.
+Proof.
+  unfold sign_req. intros H.
+  destruct (add_seconds now1 (Z.of_N sign_req_seconds)) as [e|] eqn:Ea; [|discriminate]. cbn [bind] in H.
+  destruct (add_seconds_sound _ _ _ Ea) as [Hs Hv].
+  eexists. split; [exact H|].
+  cbn [c_key_name c_issuer c_now c_pub c_signer c_start c_end].
+  repeat split; try reflexivity; [|exact Hv].
+  unfold instant_of, utc. cbn [a_fields a_offset]. rewrite Hs. change (Z.of_N sign_req_seconds) with 864000%Z. lia.
+Qed.
+
 End Main.
 
 (* ---- the specification holds of the decoded values ---------------------------------------------------------------- *)
